@@ -271,6 +271,7 @@ func writerReplay(args []string) {
 	prop := fs.String("prop", "C09", "")
 	fs.Parse(args)
 	rep := lib.NewReport(*prop, "writer-replay")
+	defer installPoolMonitor(rep)()
 	lib.Parallel(runtime.NumCPU(), func(emit func([]byte)) {
 		_ = lib.TLCLines(os.Stdin, func(raw []byte) { emit(append([]byte(nil), raw...)) })
 	}, func(raw []byte) {
